@@ -20,6 +20,12 @@ func (e *Enc) calleeKey(c *ssa.CallCommon) (string, *ssa.Function) {
 		}
 		return FuncKey(fn), fn
 	}
+	// call through a package-level function variable: named after the variable
+	if u, ok := c.Value.(*ssa.UnOp); ok {
+		if g, ok := u.X.(*ssa.Global); ok && g.Pkg != nil {
+			return g.Pkg.Pkg.Path() + "." + g.Name(), nil
+		}
+	}
 	return "", nil
 }
 
@@ -109,6 +115,9 @@ func (e *Enc) callCommon(c *ssa.CallCommon, site ssa.Instruction, st *State, def
 		retT = resT.At(0).Type()
 	}
 	if b, ok := c.Value.(*ssa.Builtin); ok {
+		if !deferred && e.ctr != nil && len(e.ctr.AssertAts) > 0 {
+			e.fireAssertAt("call", b.Name(), pos, st, map[string]*Val{}, "true")
+		}
 		return e.builtinCall(b, c, site, st)
 	}
 	if !deferred {
@@ -638,8 +647,7 @@ func (e *Enc) checkPost() {
 			ctx := &specCtx{env: env, st: rp.state, old: e.entry, result: r, pkg: e.ctr.Pkg, resSig: sigRes}
 			f := e.evalBoolCtx(en, ctx)
 			name := fmt.Sprintf("post.%d@ret%d", i+1, ri+1)
-			o := e.obligeAt(rp.pc, "post", name, f, rp.pos, "postcondition: "+en.Src)
-			o.Prefix = len(e.asserts)
+			e.obligeSplit(rp.pc, "post", name, f, rp.pos, "postcondition: "+en.Src, rp.block)
 		}
 	}
 }
